@@ -293,6 +293,13 @@ def handle (d : DS) (line : String) : DS × String :=
     if !d.dlSet then (d, "bad-op") else
     (d, ";".intercalate ((wiresMade d.dlVerif d.dlWires).map
       (fun w => outcomeStr (fetchDecision d.dlVerif (transport w)) ++ ":" ++ toString (bodyWritten d.dlVerif w))))
+  | "zipcopy" :: rest =>
+    let get (k : String) : String := ((rest.filterMap kv).lookup k).getD ""
+    match (get "size").toNat?, parseBit (get "err") with
+    | some n, some e =>
+      let r := zipCopy { size := n, readErr := e }
+      (d, if r.2 then "written=- failed=1" else s!"written={r.1} failed=0")
+    | _, _ => (d, "bad-op")
   | "unpack" :: rest =>
     let get (k : String) : String := ((rest.filterMap kv).lookup k).getD ""
     if get "kind" = "gz" then
